@@ -747,7 +747,7 @@ func runPkgCase(w *caseWriter, id string, d pkgDesc, st *pkgStats, extra func(w 
 		cid := id + "/" + format
 		w.line("pcase %s %s", cid, xs(format))
 		// inputs as the packager will see them (fresh parse; Package mutates its Info)
-		info, _, perr := buildInfo(d.YAML, d.Env, format)
+		info, docCfg, perr := buildInfo(d.YAML, d.Env, format)
 		if perr != nil {
 			w.line("impl err parse")
 			w.line("note %s", xs(perr.Error()))
@@ -767,7 +767,16 @@ func runPkgCase(w *caseWriter, id string, d pkgDesc, st *pkgStats, extra func(w 
 		}
 		// content oracle for the packager's PrepareForPackager call
 		ss := statSet{}
+		// the entries the DOCUMENT declares for this format (its override block's list when that names any, the common list
+		// otherwise; which of them are addressed to the format is the planning model's business) - not what the
+		// implementation's own selection left of them
 		contents := info.Contents
+		if docCfg != nil {
+			contents = docCfg.Contents
+			if ov := docCfg.Overrides[format]; ov != nil && len(ov.Contents) > 0 {
+				contents = ov.Contents
+			}
+		}
 		if format == "deb" && info.Changelog != "" {
 			contents = append(append(files.Contents{}, contents...), &files.Content{
 				Destination: fmt.Sprintf("/usr/share/doc/%s/changelog.Debian.gz", info.Name), Type: files.TypeDebChangelog})
